@@ -212,6 +212,9 @@ var KindZoo = []string{"Redis", "Canvas", "Compass", "Class", "Access", "Aliases
 	"X", "x", "A1", "K8s", "V2Alpha1S", "9", "0s", "mIxEdCaSe", "UPPERS", "lowers", "StatefulSets", "statefulsets", "statefulset",
 	"Deployment", "deployment", "Deployments", "replicaset", "ReplicaSets", "NULL", "null", "Null", "NULLS", "nulls", "sts", "stss", "dp", "dps",
 	"pool", "pools", "TApp", "TApps", "Job", "Jobs", "DaemonSet",
+	// kinds that merely START or END with, or are one letter short of, a word of the app-type tables
+	"StatefulSetPlus", "statefulsetx", "StatefulSetSet", "XStatefulSet", "StatefulSe", "AdvancedStatefulSet",
+	"DeploymentConfig", "deploymentx", "XDeployment", "Deploymen", "ReplicaSetX", "TAppSet", "stsx", "xsts", "dpx", "NULLx", "poolx",
 	"VeryLongCustomResourceKindNameThatGoesOnAndOnAndOnAndOnAndOnAndOnAndOnUntilItIsLongerThanSixtyThreeBytes",
 	"VeryLongCustomResourceKindNameThatGoesOnAndOnAndOnAndOnAndOnAndOnAndOnUntilItIsLongerThanSixtyThreeBytess"}
 
@@ -226,7 +229,21 @@ func RandomKind(r *rand.Rand) string {
 			b[i] = pick(r, letters)
 		}
 		return string(b) + []string{"", "", "", "s", "S", "ss", "es"}[r.Intn(7)]
-	case 2, 3, 4:
+	case 2:
+		// a word of the app-type tables with something in front, behind, or its last letter dropped
+		w := []string{"StatefulSet", "statefulset", "statefulsets", "Deployment", "deployment", "ReplicaSet", "TApp", "tapp", "sts", "dp", "NULL", "pool"}[r.Intn(12)]
+		x := string(pick(r, letters))
+		switch r.Intn(4) {
+		case 0:
+			return w + x
+		case 1:
+			return x + w
+		case 2:
+			return w[:len(w)-1]
+		default:
+			return w + x + string(pick(r, letters))
+		}
+	case 3, 4:
 		return KindZoo[r.Intn(len(KindZoo))]
 	default:
 		return wfKinds[r.Intn(len(wfKinds))]
